@@ -711,6 +711,18 @@ def c04_families(tier, seed, ids=None):
                        assign("ev", fn(["n"], ife(bin_("==", N("n"), I(0)), Bo(True), call("od", bin_("-", N("n"), I(1)))))), assign("od", fn(["n"], ife(bin_("==", N("n"), I(0)), Bo(False), call("ev", bin_("-", N("n"), I(1)))))),
                        call("ev", I(10)), call("od", I(7)), call("ev", I(7))], {"tail": "recursion"}))
     out.append(("calls in tail position with closures over the caller's variables reaching the callee indirectly", tc, ("value",)))
+    # an array of closures over the caller's own variables is handed to other functions and comes back (as it is, sliced, inside another
+    # array, through recursion): the caller's later assignments are still seen through the closures it holds, and the callee changed nothing
+    hb = []
+    ident = assign("ident", fn(["a"], N("a")))
+    slc = assign("slc", fn(["a"], ix2(N("a"), I(0), I(1))))
+    boxed = assign("boxed", fn(["a"], lst([N("a"), I(0)])))
+    recid = assign("recid", fn(["a", "n"], ife(bin_("==", N("n"), I(0)), N("a"), call("recid", N("a"), bin_("-", N("n"), I(1))))))
+    for hname, back in (("identity", call("ident", N("cl"))), ("slice", call("slc", N("cl"))), ("boxed", call("boxed", N("cl"))), ("recursion", call("recid", N("cl"), I(3))), ("control", lst([I(0)]))):
+        body = [assign("v", I(1)), assign("w", I(10)), assign("cl", lst([fn([], N("v")), fn([], bin_("+", N("w"), N("v")))])), assign("r", back), assign("v", bin_("+", N("v"), I(1))), assign("w", I(20)),
+                assign("ga", ix1(N("cl"), I(0))), assign("gb", ix1(N("cl"), I(1))), lst([call("ga"), call("gb"), un("#", N("r"))])]
+        hb.append(mk(ids, [ident, slc, boxed, recid, assign("caller", fn([], block(body))), call("caller"), call("caller")] + body, {"handed-down-and-back": hname}))
+    out.append(("arrays of closures over the caller's variables handed to a callee and back", hb, ("value",)))
     # a call made in a loop body must not change what the iterator closure sees in its captured variable
     upto = assign("upto", fn(["n"], fn([], block([assign("i", I(0)), wh(bin_("<", N("i"), N("n")), block([y(N("i")), assign("i", bin_("+", N("i"), I(1)))]))]))))
     adder = assign("adder", fn(["k"], fn(["x"], bin_("+", N("x"), N("k")))))
@@ -857,6 +869,19 @@ def c05_families(tier, seed, ids=None):
                            f, block([f, I(0)]), I(1)], {"form": ps(f)[:40]}))
     out.append(("statement forms in tail / body / branch positions", sf, ("nocrash",)))
     nr = 300 if tier == "quick" else 12000
+    # after a runtime error raised inside calls (1 to 3 frames deep, inside a loop, inside a generator) the session goes on with statements that
+    # finish in every way: a plain value, a top-level return, a return from a top-level loop, a call that returns from a loop, a block
+    ae = []
+    incd = assign("incd", fn(["x", "d"], ife(bin_(">", N("d"), I(0)), call("incd", N("x"), bin_("-", N("d"), I(1))), bin_("+", N("x"), I(1)))))
+    gbad = assign("gbad", fn(["x"], block([y(I(1)), y(bin_("+", N("x"), I(1)))])))
+    fails = {"one frame": call("incd", St("a"), I(0)), "three frames": call("incd", St("a"), I(2)), "in a loop body": fr(["i"], [call("fromto", I(0), I(2))], call("incd", lst([]), I(1))),
+             "in a generator": fr(["i"], [call("gbad", St("s"))], N("i")), "generator inside a call": call("usegen", St("s"))}
+    usegen = assign("usegen", fn(["x"], block([assign("t", I(0)), fr(["i"], [call("gbad", N("x"))], assign("t", bin_("+", N("t"), N("i")))), N("t")])))
+    for fname, f in fails.items():
+        after = [call("incd", I(41), I(1)), ret(I(9)), fr(["i"], [call("fromto", I(0), I(10))], iff(bin_("==", N("i"), I(3)), ret(N("i")))), block([I(1), ret(I(2)), I(3)]),
+                 wh(Bo(True), ret(I(7))), call("usegen", I(4)), iff(Bo(True), ret(St("r"))), f, ret(I(8)), I(1)]
+        ae.append(mk(ids, [incd, gbad, usegen, f] + after, {"after-error": fname}))
+    out.append(("statements that finish through return after an error raised inside calls", ae, ("value", "residue")))
     out.append(("random ill-typed sessions", gens.random_sessions(nr, seed, "c05", p_ill=0.25, first_id=600000), ("nocrash",)))
     return out
 
